@@ -849,7 +849,7 @@ func c20Run(t *rapid.T, st *vkit.Stats) {
 	add("arm", m.ruleArm)
 	add("recv", m.ruleRecv)
 	add("park", m.rulePark)
-	t.Repeat(actions)
+	t.Repeat(vkit.NoStarve(actions, nil))
 
 	// ---- teardown: bring the channel to its end (by count or by cancellation), then drain and audit
 	m.tr("teardown")
